@@ -505,11 +505,13 @@ fn opt_chain(t: &[&str]) -> Option<String> {
     if fam != fam0 || v["wallpaper"]["family"].as_str()? != fam0.as_str() && false {
         return Some(format!("ok FAILS family changed {} -> {}", fam0, fam));
     }
-    if !(p[0] >= 0.01 && p[0] <= p0[0]) {
+    // an input below the lower limit of a range is outside the declared ranges to begin with: the
+    // clause then only asks that the parameter stays between its start value and that limit
+    if !(p[0] >= 0.01f64.min(p0[0]) && p[0] <= p0[0].max(0.01)) {
         return Some(format!("ok FAILS cell length {:e} outside [0.01, {:e}]", p[0], p0[0]));
     }
     let free_ratio = fam0 == "Monoclinic" || fam0 == "Orthorhombic";
-    if free_ratio && !(p[1] >= 0.1f64.min(p0[1]) && p[1] <= p0[1]) {
+    if free_ratio && !(p[1] >= 0.1f64.min(p0[1]) && p[1] <= p0[1].max(0.1)) {
         return Some(format!("ok FAILS side ratio {:e} outside [0.1, {:e}]", p[1], p0[1]));
     }
     if !free_ratio && p[1].to_bits() != p0[1].to_bits() {
@@ -971,6 +973,35 @@ fn c02_score(t: &[&str]) -> Option<String> {
     score_of_state(&st)
 }
 
+/// C02 for a state whose shape was replaced after construction (public field / edited JSON): the
+/// score is that of the shape the state now holds: <state> <shape>
+fn c02_swap(t: &[&str]) -> Option<String> {
+    use crate::state::{AnyShape, AnyState};
+    let mut k = crate::exec::Toks::new(t);
+    let st = match crate::state::parse_state(&mut k)? {
+        Ok(s) => s,
+        Err(_) => return Some("ok holds invalid-request".to_string()),
+    };
+    let sh = match crate::state::parse_shape(&mut k)? {
+        Ok(s) => s,
+        Err(_) => return Some("ok holds invalid-request".to_string()),
+    };
+    let swapped = match (&st, &sh) {
+        (AnyState::HardLine(s), AnyShape::Line(l)) => {
+            let mut v = serde_json::to_value(s).ok()?;
+            v["shape"] = serde_json::to_value(l).ok()?;
+            match serde_json::from_value(v) { Ok(x) => AnyState::HardLine(x), Err(_) => return Some("ok holds invalid-request".to_string()) }
+        }
+        (AnyState::HardMol(s), AnyShape::Mol(m)) => {
+            let mut v = serde_json::to_value(s).ok()?;
+            v["shape"] = serde_json::to_value(m).ok()?;
+            match serde_json::from_value(v) { Ok(x) => AnyState::HardMol(x), Err(_) => return Some("ok holds invalid-request".to_string()) }
+        }
+        _ => return Some("ok holds invalid-request".to_string()),
+    };
+    score_of_state(&swapped)
+}
+
 fn score_of_state(st: &crate::state::AnyState) -> Option<String> {
     let st = st.clone();
     let score = match crate::state::state_score(&st) {
@@ -1340,6 +1371,52 @@ fn cli_state(args: &[&str], json: &str) -> Option<crate::state::AnyState> {
 /// C10/C11/C20 on one invocation of the real binary (args as for `cli run` without the threads
 /// token): exit status / files / labels / copies / logged score / SVG; with `more > 0` also the
 /// same invocation with `replications + more` (prefix monotonicity).
+/// C10 with `--start-config`: the structure written for a requested group / shape is labelled with
+/// what was asked for, also when an initial configuration file of ANOTHER group is passed.
+/// args: <other group> <cli tail>
+fn c10_startconfig(t: &[&str]) -> Option<String> {
+    let other = *t.get(0)?;
+    let a = &t[1..];
+    let group = *a.get(8)?;
+    // 1. a structure of the other group (same potential and shape), one replication
+    let mut a0: Vec<String> = a.iter().map(|x| x.to_string()).collect();
+    a0[0] = "1".to_string();
+    a0[8] = other.to_string();
+    let a0r: Vec<&str> = a0.iter().map(|x| x.as_str()).collect();
+    let r0 = crate::io::run_cli(&crate::io::cli_args(&a0r)?, None)?;
+    let j0 = match (r0.status, r0.json) {
+        (Some(0), Some(j)) => j,
+        _ => return Some("ok holds no-start-structure".to_string()),
+    };
+    let dir = std::env::temp_dir().join(format!("pvh-start-{}-{}", std::process::id(), a.len() + j0.len()));
+    std::fs::create_dir_all(&dir).ok()?;
+    let f = dir.join("start.json");
+    std::fs::write(&f, &j0).ok()?;
+    // 2. the requested run, starting from that file
+    let mut args = vec!["--start-config".to_string(), f.to_string_lossy().to_string()];
+    args.extend(crate::io::cli_args(a)?);
+    let r = crate::io::run_cli(&args, None);
+    let _ = std::fs::remove_dir_all(&dir);
+    let r = r?;
+    let json = match (r.status, r.json) {
+        (Some(0), Some(j)) => j,
+        _ => return Some("ok holds error-exit".to_string()),
+    };
+    let v: serde_json::Value = serde_json::from_str(&json).ok()?;
+    let (rfam, rops, _) = reference(group)?;
+    if v["wallpaper"]["name"].as_str()? != group {
+        return Some(format!("ok FAILS with --start-config of a {} structure the written group name is {} for requested group {}", other, v["wallpaper"]["name"], group));
+    }
+    if v["wallpaper"]["family"].as_str()? != rfam || v["cell"]["family"].as_str()? != rfam {
+        return Some(format!("ok FAILS with --start-config the written family is {} / {} for group {} ({})", v["wallpaper"]["family"], v["cell"]["family"], group, rfam));
+    }
+    let copies: usize = v["occupied_sites"].as_array()?.iter().map(|s| s["wyckoff"]["symmetries"].as_array().map_or(0, |x| x.len())).sum();
+    if copies != rops.len() {
+        return Some(format!("ok FAILS with --start-config {} copies written for a group of order {}", copies, rops.len()));
+    }
+    Some("ok holds".to_string())
+}
+
 fn cli_check(t: &[&str]) -> Option<String> {
     let pid = *t.get(0)?;
     let more: u64 = t.get(1)?.parse().ok()?;
@@ -1531,6 +1608,8 @@ pub fn oracle(t: &[&str]) -> Option<String> {
         "c02_area" => c02_area(&t[1..]),
         "c02_classify" => c02_classify(&t[1..]),
         "c02_score" => c02_score(&t[1..]),
+        "c02_swap" => c02_swap(&t[1..]),
+        "c10_startconfig" => c10_startconfig(&t[1..]),
         "c01_overlap" => c01_overlap(&t[1..]),
         "c04_symmetry" => c04_symmetry(&t[1..]),
         "after_opt" => after_opt(&t[1..]),
